@@ -306,3 +306,13 @@ def compare_stats_threads(run, tmp):
                     if not ((math.isnan(x) and math.isnan(y)) or abs(x - y) <= 1e-9 * max(1.0, abs(x))):
                         run.fail(dict(i=10**6 + 200 + th, op='stats', threads=th), f'stats differ between 1 and {th} threads: {a} vs {b}',
                                  signature=dict(kind='stats-threads'))
+
+
+def read_result_any(path):
+    """(pixels, per-band masks, tags, descriptions, profile essentials) of any raster"""
+    import rasterio as rio
+    with rio.Env(GDAL_TIFF_INTERNAL_MASK=True):
+        with rio.open(path) as ds:
+            prof = (ds.count, ds.dtypes, ds.width, ds.height, tuple(ds.transform)[:6], str(ds.crs), repr(ds.nodata),
+                    ds.profile.get('compress'), ds.profile.get('tiled'), ds.profile.get('blockxsize'))
+            return (ds.read(), ds.read_masks().astype(bool), ds.tags(), ds.descriptions, prof)
